@@ -7,6 +7,20 @@ import sdk_ast as sa
 import sdk_common as sc
 
 KINDS = ["loop", "if", "foreach", "until"]
+# (connection, flush(block=..)) of the runs of completed operations
+CONFIGS = [("compile", True), ("debug", True), ("compile", True), ("debug", False), ("compile", True), ("debug", "alternate")]
+
+
+def outcome_sequence(n, flush_every):
+    """n measurements whose outcome stays in a register and is never looked at, a flush after every k-th"""
+    prog = []
+    for i in range(n):
+        prog += [["newq", i], ["measreg", i, 0, i]]
+        if (i + 1) % flush_every == 0:
+            prog.append(["flush"])
+    if prog[-1][0] != "flush":
+        prog.append(["flush"])
+    return prog
 
 
 def oracle(steps, err, prog):
@@ -20,21 +34,25 @@ def oracle(steps, err, prog):
         if s != held:
             return i, (f"registers {s} active after a completed operation, but only {held} are held by the "
                        f"program (builder.new_register)")
+        mu = getattr(sc.run_sequence, "mused", None) or []
+        if prog[i][0] == "flush" and i < len(mu) and mu[i]:
+            return i, (f"M registers {mu[i]} are still claimed after a flush: register outcomes are handed over at "
+                       f"the flush, a connection that flushes must get all 16 back (they pile up otherwise)")
     return None
 
 
-def fails(repo, prog):
+def fails(repo, prog, mode="compile", block=True):
     try:
-        steps, err, _ = sc.run_sequence(repo, prog)
+        steps, err, _ = sc.run_sequence(repo, prog, mode=mode, block=block)
     except sa.IllFormed:
         return None
     return oracle(steps, err, prog)
 
 
-def shrink(repo, prog, budget=120):
+def shrink(repo, prog, budget=120, mode="compile", block=True):
     """greedy removal of top-level statements that keeps the oracle failing"""
     cur = list(prog)
-    f = fails(repo, cur)
+    f = fails(repo, cur, mode, block)
     if f is None:
         return cur
     cur = cur[: f[0] + 1]
@@ -43,7 +61,8 @@ def shrink(repo, prog, budget=120):
         budget -= 1
         try:
             cand = sa.renumber_arrays(cur[:i] + cur[i + 1:])
-            if fails(repo, cand) is not None:
+            g = fails(repo, cand, mode, block)
+            if g is not None and g[1][:24] == f[1][:24]:      # the same kind of failure, not a broken candidate
                 cur = cand
         except Exception:  # noqa  (the candidate uses something the removed statement declared)
             pass
@@ -56,11 +75,16 @@ def run(ctx):
                 "conditions as context/callback on int/Future/RegFuture operands, loop, loop_body, foreach, enumerate, "
                 "loop_until with cleanup, add with/without modulus, measurements into futures/registers/new arrays, "
                 "EPR create/recv keep, measure, corrections, post routine, context), nesting <= 4, on ONE real "
-                "connection, flush (pop + assemble + reset) after every k-th, k in {1,3,7,25,end}; plus towers of "
+                "connection, flush after every k-th, k in {1,3,7,25,end} - alternately on the harness connection (flush = pop + "
+                "assemble + reset, nothing sent) and on the SDK's DebugConnection through the real conn.flush with "
+                "block=True / False / alternating (no controller answers: no register outcome ever becomes readable, and "
+                "the harness reads none); 40 register-outcome measurements never read, flushed after every 1st / 3rd, in "
+                "all four configurations; plus towers of "
                 "12..22 open operations (agreement on failure).  After each top-level statement the real "
                 "MemoryManager._active_registers, the peak number of simultaneously active registers and "
-                "success/failure are compared with Sdk.Lower by vm_compute; the oracle on the implementation: nothing "
-                "active after a completed operation, no failure.  non-trivial = sequence with >= 50 operations; "
+                "success/failure and the M registers in use are compared with Sdk.Lower by vm_compute; the oracle on the "
+                "implementation: nothing active after a completed operation, no M register claimed after a flush, no "
+                "failure.  non-trivial = sequence with >= 50 operations; "
                 "distinct = distinct operation sequences")
     ctx.assume += [
         "EPR operations: only their register use is modelled (number of registers held / transiently taken, arrays "
@@ -99,7 +123,12 @@ def run(ctx):
     for i in range(n_seq):
         k = [1, 3, 7, 25, 0][i % 5]
         prog = sa.gen_sequence(rng, n_ops + rng.randint(0, 40), k)
-        steps, err, peaks = sc.run_sequence(repo, prog)
+        # every second run on the SDK's DebugConnection through the real conn.flush (blocking, non-blocking,
+        # alternating): nothing answers, no register outcome is ever readable or read
+        mode, blk = CONFIGS[i % len(CONFIGS)]
+        stats.setdefault("configs", {})[f"{mode}/{blk}"] = stats.get("configs", {}).get(f"{mode}/{blk}", 0) + 1
+        steps, err, peaks = sc.run_sequence(repo, prog, mode=mode, block=blk)
+        mu = list(sc.run_sequence.mused)
         sa.stmt_kinds(prog, stats["kinds"])
         stats["lengths"].append(len(prog))
         stats["flush_every"].append(k)
@@ -108,14 +137,29 @@ def run(ctx):
         ctx.note_case(json.dumps(prog), len(prog) >= 50)
         f = oracle(steps, err, prog)
         if f is not None:
-            small = shrink(repo, prog)
-            ctx.violation(f"{f[1]} (operation {f[0]} of a run of completed operations, nesting <= 4)",
-                          dict(prog=small, flush_every=k, original_length=len(prog), error=err), key=None)
-        cases.append(sc.acase_coq(fd, prog, steps, peaks))
-        metas.append(dict(kind="sequence", prog=prog, steps_tail=steps[-3:], err=err))
+            small = shrink(repo, prog, mode=mode, block=blk)
+            ctx.violation(f"{f[1]} (operation {f[0]} of a run of completed operations, nesting <= 4; connection: {mode}, "
+                          f"flush(block={blk}))",
+                          dict(prog=small, flush_every=k, original_length=len(prog), error=err, mode=mode, block=blk), key=None)
+        cases.append(sc.acase_coq(fd, prog, steps, peaks, mu))
+        metas.append(dict(kind="sequence", prog=prog, steps_tail=steps[-3:], err=err, mode=mode, block=blk))
         if i < 2:
             ctx.samples.append(dict(flush_every=k, first_operations=prog[:6], operations=len(prog),
                                     peak=max(peaks) if peaks else 0))
+    # register outcomes that never become readable and are never read: 40 of them on one connection
+    for mode, blk in [("debug", True), ("debug", False), ("debug", "alternate"), ("compile", True)]:
+        for k in (1, 3):
+            prog = outcome_sequence(40, k)
+            steps, err, peaks = sc.run_sequence(repo, prog, mode=mode, block=blk)
+            mu = list(sc.run_sequence.mused)
+            ctx.note_case(json.dumps([prog, mode, str(blk)]), True)
+            f = oracle(steps, err, prog)
+            if f is not None:
+                ctx.violation(f"{f[1]} (operation {f[0]}: 40 times q.measure(store_array=False), outcome never read, flush "
+                              f"after every {k}; connection: {mode}, flush(block={blk}))",
+                              dict(prog=prog[: f[0] + 1], error=err, mode=mode, block=blk), key=None)
+            cases.append(sc.acase_coq(fd, prog, steps, peaks, mu))
+            metas.append(dict(kind="outcomes", prog=prog, err=err, mode=mode, block=blk))
     n_tow = 14 if quick else 120
     for i in range(n_tow):
         depth = rng.randint(12, 22)
@@ -156,10 +200,11 @@ def run(ctx):
                                [["futadd", 0, ["c", 0], ["int", 1], None]], rng.randint(5, 15)])
         prog = sa.renumber_arrays([["newarr", 0, 2, [0, 1]]] + prefix + strip(tower) + [["flush"]])
         steps, err, peaks = sc.run_sequence(repo, prog, assemble=False)
+        mu = list(sc.run_sequence.mused)
         stats["towers"] += 1
         stats["tower_failures"] += 1 if err else 0
         ctx.note_case(json.dumps(prog), True)
-        cases.append(sc.acase_coq(fd, prog, steps, peaks))
+        cases.append(sc.acase_coq(fd, prog, steps, peaks, mu))
         metas.append(dict(kind="tower", prog=prog, depth=depth, err=err))
         # oracle (C14_statement_compiles): without EPR a tower of depth d needs at most d + 2 registers,
         # whatever was completed before it
@@ -168,6 +213,7 @@ def run(ctx):
                           f"although {depth + 2} <= 16 registers suffice",
                           dict(prog=prog, depth=depth, error=err), key=None)
     ctx.coverage["stream"] = dict(kinds=stats["kinds"], sequences=n_seq, operations=sum(stats["lengths"]),
+                                  connections=stats.get("configs"),
                                   flush_every=sorted(set(stats["flush_every"])), peak_max=max(stats["peaks"] or [0]),
                                   towers=stats["towers"], towers_that_fail_in_both=stats["tower_failures"],
                                   blocks_the_assembler_could_not_fit=stats.get("asm", 0))
@@ -252,7 +298,9 @@ def search(ctx, repo):
 
 def replay(ctx, path):
     rec = json.load(open(path))["replay"]
-    steps, err, peaks = sc.run_sequence(ctx.repo, rec["prog"])
+    blk = rec.get("block", True)
+    steps, err, peaks = sc.run_sequence(ctx.repo, rec["prog"], mode=rec.get("mode", "compile"),
+                                        block=blk if blk == "alternate" else bool(blk))
     f = oracle(steps, err, rec["prog"])
     print("replay:", dict(failing=f, error=err, active_after_each=steps[-5:]))
     if f is not None:
